@@ -116,7 +116,7 @@ def gen_program(rng, features=None, n_nodes=None, n_modules=None):
                     form = "wrapped"      # reference through a functools.wraps decorator wrapper
                 if tj["kind"] == "memento" and nd["explicit"] is None and r > 1 - F.get("p_hidden", 0.1):
                     form = "hidden"
-                elif form == "bare" and nd["kind"] == "memento" and rng.random() < F.get("p_declared", 0.0):
+                elif form == "bare" and nd["kind"] == "memento" and rng.random() < F.get("p_declared", 0.12):
                     # the callee is named only in dependencies=[...] of the decorator and called dynamically: a declared
                     # (required) dependency; the library resolves it when the caller is defined, so the callee comes first
                     form = "declared"
